@@ -722,6 +722,12 @@ def round14_entries():
            'define void @f(i32 %x) {\n\tcall void @llvm.dbg.value(metadata !DIArgList(i32 %x), metadata !0, metadata !DIExpression())\n\tret void\n}\n\n'
            'define void @g(i32 %x) {\n\tcall void @llvm.dbg.value(metadata !DIArgList(i32 %x), metadata !0, metadata !DIExpression())\n\tcall void @llvm.dbg.value(metadata !DIArgList(i32 %x), metadata !0, metadata !DIExpression())\n\tret void\n}\n\n!0 = !{}\n')
     out.append(("diarglist.same-text-two-functions", dal, ["metadata !DIArgList(i32 %x)"]))
+    # an alignment written among the FUNCTION ATTRIBUTES (`align=8`, the attribute-group spelling, which the parser lets through everywhere a function attribute
+    # may stand): printed in the same form — `align 8` would be the alignment FIELD of a function and is no syntax at all after a global variable or a call
+    out.append(("funcattr-align.global", '@x = global i32 0 align=8\n@y = global i32 0, align 4 align=8 "k"\n', ['@x = global i32 0 align=8', '@y = global i32 0, align 4 align=8 "k"']))
+    out.append(("funcattr-align.function", 'define void @f() align=8 {\n\tret void\n}\n\ndeclare void @g() nounwind align=16 align 4\n', ['define void @f() align=8 {', 'declare void @g() nounwind align=16 align 4']))
+    out.append(("funcattr-align.call-sites", 'declare void @g()\n\ndefine void @f() personality i8* null {\n\tcall void @g() align=8\n\tinvoke void @g() align=8 nounwind\n\t\tto label %a unwind label %b\n\na:\n\tcallbr void asm "", ""() align=2\n\t\tto label %c []\n\nb:\n\t%l = landingpad i8\n\t\tcleanup\n\tret void\n\nc:\n\tret void\n}\n',
+                ['call void @g() align=8', 'invoke void @g() align=8 nounwind', 'callbr void asm "", ""() align=2']))
     # the EMPTY comdat name (`$""`, accepted by LLVM too): printed quoted — `$` alone is not a token
     out.append(("comdat.empty-name", '$"" = comdat any\n\n@x = global i32 0, comdat($"")\n', ['$"" = comdat any', '@x = global i32 0, comdat($"")']))
     # numbered type definitions among names that sort below the digits, between them and above them
